@@ -246,6 +246,11 @@ def validate(traces):
 
 def run(prop, tier):
     chk = Check(prop, tier, "model_checking")
+    run_into(chk, prop, tier)
+    return chk.finish()
+
+
+def run_into(chk, prop, tier):
     rng = random.Random(seed())
     tlc.sany("MCReqWire.tla")
     tlc.sany("MCReqWireTrace.tla")
@@ -311,4 +316,3 @@ def run(prop, tier):
         "header names / values, methods and targets are drawn from small token tables; the HTTP/2 part of 'cannot legally be encoded' is not judged (the statement fixes the rejection rule for the HTTP/1.1 head only)",
         "transparent re-sends (ConnectionNotAvailable after double assignment, GOAWAY refusal) are exercised by the pool / HTTP/2 checks, where the peers' parsers see every transmission",
     ]
-    return chk.finish()
